@@ -122,6 +122,8 @@ int read_elf(
     return -1;
   }
 
+  const uint64_t file_length = file.get_file_length();
+
   memset(e_ident, 0, 16);
   n = file.get_bytes(e_ident, 16);
 
@@ -268,6 +270,18 @@ int read_elf(
   //printf("e_shnum=%d\n", e_shnum);
   //printf("e_shstrndx=%d\n", e_shstrndx);
 
+  // A truncated or damaged file must not send the loops below past the
+  // end of the file.
+  if (e_shentsize < (is_32_bit == 1 ? 40 : 64) ||
+      e_shoff > file_length ||
+      (uint64_t)e_shnum * e_shentsize > file_length - e_shoff ||
+      e_shstrndx >= e_shnum)
+  {
+    printf("ELF Error: section header table is not inside the file\n");
+    file.close_file();
+    return -1;
+  }
+
   uint64_t stroffset;
 
   if (is_32_bit == 1)
@@ -330,6 +344,19 @@ int read_elf(
     //printf("name=%s\n", name);
 
     int is_text = (elf_shdr.sh_flags & SHF_EXECINSTR) != 0 ? 1 : 0;
+
+    if ((is_text ||
+         strncmp(name, ".data", 5) == 0 ||
+         strcmp(name, ".vectors") == 0 ||
+         elf_shdr.sh_type == SHT_SYMTAB) &&
+        (elf_shdr.sh_offset > file_length ||
+         elf_shdr.sh_size > file_length - elf_shdr.sh_offset))
+    {
+      printf("ELF Error: section %s is not inside the file\n", name);
+      file.close_file();
+      return -1;
+    }
+
     if (is_text ||
         strncmp(name, ".data", 5) == 0 ||
         strcmp(name, ".vectors") == 0)
